@@ -142,7 +142,30 @@ func parse(line string) (c config, mode int, chain []int) {
 	return
 }
 
+// exec runs one case under its own recover and watchdog: this property has no model stream, so a
+// panic or a hang of Save / Load / Next must be reported as a violation here (hx would record
+// them as the observations "panic" / "hang", which nothing compares).
 func exec(line string) hx.Result {
+	ch := make(chan hx.Result, 1)
+	go func() {
+		defer func() {
+			if e := recover(); e != nil {
+				ch <- hx.Result{Obs: "panic", Buckets: []string{"outcome:panic"},
+					Viol: []hx.OracleViolation{hx.Fail("C04:panic", "panic in Next / Save / Load: %v", e)}}
+			}
+		}()
+		ch <- exec1(line)
+	}()
+	select {
+	case r := <-ch:
+		return r
+	case <-time.After(4 * time.Minute):
+		return hx.Result{Obs: "hang", Buckets: []string{"outcome:hang"},
+			Viol: []hx.OracleViolation{hx.Fail("C04:hang", "no answer after 4 minutes")}}
+	}
+}
+
+func exec1(line string) hx.Result {
 	c, mode, chain := parse(line)
 	ref := reference(c)
 	L := len(ref)
